@@ -67,4 +67,10 @@ Section Prims.
   Definition rfc_secret_part (usage symalg : Z) (s : rfc_s2k_spec) (iv key : bytes) (mpis : list Z) : bytes :=
     if usage =? 0 then [0] ++ rfc_secret_data 0 mpis
     else [usage; symalg] ++ rfc_s2k_octets s ++ iv ++ cfb_enc symalg key iv (rfc_secret_data usage mpis).
+
+  (* 5.5.3, usage octet "any other value": it is the symmetric-key encryption algorithm identifier; no algorithm octet and no
+     string-to-key specifier follow, only the IV; (3.7.2.1) the key is the MD5 hash of the passphrase, i.e. a Simple S2K with MD5;
+     the two-octet checksum (usage octet not 254) is encrypted together with the algorithm-specific fields *)
+  Definition rfc_secret_part_legacy (cipher : Z) (iv key : bytes) (mpis : list Z) : bytes :=
+    [cipher] ++ iv ++ cfb_enc cipher key iv (rfc_secret_data cipher mpis).
 End Prims.
